@@ -27,7 +27,7 @@ theorem parentOf_some {t : Tree} {k p : Nat} (h : parentOf t k = some p) :
   · exact Or.inr (dictLast_some h)
 
 /-- all four arrays are defined at a node on which `wfNode` holds -/
-theorem wfNode_lookups {t : Tree} {X : Rows} {m : Nat} {eps : Rat} {i : Nat} (hw : wfNode t X m eps i = true) :
+theorem wfNode_lookups {t : Tree} {X : Rows} {m : Nat} {nxt : Rat → Rat} {i : Nat} (hw : wfNode t X m nxt i = true) :
     ∃ l r f thr, t.left[i]? = some l ∧ t.right[i]? = some r ∧ t.feature[i]? = some f ∧ t.threshold[i]? = some thr := by
   unfold wfNode at hw
   split at hw
@@ -36,8 +36,8 @@ theorem wfNode_lookups {t : Tree} {X : Rows} {m : Nat} {eps : Rat} {i : Nat} (hw
   · cases hw
 
 /-- a node with a child is internal -/
-theorem internal_of_child {t : Tree} {X : Rows} {m : Nat} {eps : Rat} {i : Nat} {l r f : Int} {thr : Rat}
-    (hw : wfNode t X m eps i = true)
+theorem internal_of_child {t : Tree} {X : Rows} {m : Nat} {nxt : Rat → Rat} {i : Nat} {l r f : Int} {thr : Rat}
+    (hw : wfNode t X m nxt i = true)
     (h1 : t.left[i]? = some l) (h2 : t.right[i]? = some r) (h3 : t.feature[i]? = some f)
     (h4 : t.threshold[i]? = some thr) (hc : 0 ≤ l ∨ 0 ≤ r) : ¬ l = -1 := by
   simp only [wfNode, h1, h2, h3, h4] at hw
@@ -47,8 +47,8 @@ theorem internal_of_child {t : Tree} {X : Rows} {m : Nat} {eps : Rat} {i : Nat} 
   · obtain ⟨⟨⟨⟨⟨⟨⟨⟨⟨⟨⟨a1, _⟩, _⟩, _⟩, _⟩, _⟩, _⟩, _⟩, _⟩, _⟩, _⟩, _⟩ := hw
     omega
 
-theorem wfNode_bounds {t : Tree} {X : Rows} {m : Nat} {eps : Rat} {i : Nat} {l r f : Int} {thr : Rat}
-    (hw : wfNode t X m eps i = true)
+theorem wfNode_bounds {t : Tree} {X : Rows} {m : Nat} {nxt : Rat → Rat} {i : Nat} {l r f : Int} {thr : Rat}
+    (hw : wfNode t X m nxt i = true)
     (h1 : t.left[i]? = some l) (h2 : t.right[i]? = some r) (h3 : t.feature[i]? = some f)
     (h4 : t.threshold[i]? = some thr) (hl : ¬ l = -1) : l < (t.n : Int) ∧ r < (t.n : Int) := by
   simp only [wfNode, h1, h2, h3, h4] at hw
@@ -59,9 +59,9 @@ theorem wfNode_bounds {t : Tree} {X : Rows} {m : Nat} {eps : Rat} {i : Nat} {l r
     exact ⟨a2, a4⟩
 
 /-- what the well-formedness gives for a non-root node `k` whose dictionary parent is `p` -/
-theorem node_of_parent {t : Tree} {X : Rows} {m : Nat} {eps : Rat}
+theorem node_of_parent {t : Tree} {X : Rows} {m : Nat} {nxt : Rat → Rat}
     (hlen : t.left.length = t.n) (hrlen : t.right.length = t.n)
-    (hwf : ∀ i < t.n, wfNode t X m eps i = true) {k p : Nat} (hp : parentOf t k = some p) :
+    (hwf : ∀ i < t.n, wfNode t X m nxt i = true) {k p : Nat} (hp : parentOf t k = some p) :
     ∃ l r f thr, t.left[p]? = some l ∧ t.right[p]? = some r ∧ t.feature[p]? = some f ∧
       t.threshold[p]? = some thr ∧ ¬ l = -1 ∧ p < t.n ∧ p < k ∧ (k = l.toNat ∨ k = r.toNat) := by
   rcases parentOf_some hp with ⟨hr, _⟩ | hl
@@ -81,8 +81,8 @@ theorem node_of_parent {t : Tree} {X : Rows} {m : Nat} {eps : Rat}
 /-! ### the path -/
 
 /-- nodes of a path are at least its start, below `n` if the start is, and never repeat -/
-theorem pathFrom_props {t : Tree} {X : Rows} {m : Nat} {eps : Rat}
-    (hlen : t.left.length = t.n) (hwf : ∀ i < t.n, wfNode t X m eps i = true) (x : List Rat) :
+theorem pathFrom_props {t : Tree} {X : Rows} {m : Nat} {nxt : Rat → Rat}
+    (hlen : t.left.length = t.n) (hwf : ∀ i < t.n, wfNode t X m nxt i = true) (x : List Rat) :
     ∀ fuel i, (∀ y ∈ pathFrom t x fuel i, i ≤ y ∧ (i < t.n → y < t.n)) ∧ (pathFrom t x fuel i).Nodup := by
   intro fuel
   induction fuel with
@@ -125,8 +125,8 @@ theorem pathFrom_props {t : Tree} {X : Rows} {m : Nat} {eps : Rat}
     · simp
 
 /-- (→) a node on the path other than the start has its parent on the path, and the step there goes to it -/
-theorem path_parent {t : Tree} {X : Rows} {m : Nat} {eps : Rat}
-    (hlen : t.left.length = t.n) (hwf : ∀ i < t.n, wfNode t X m eps i = true) (x : List Rat)
+theorem path_parent {t : Tree} {X : Rows} {m : Nat} {nxt : Rat → Rat}
+    (hlen : t.left.length = t.n) (hwf : ∀ i < t.n, wfNode t X m nxt i = true) (x : List Rat)
     {k p : Nat} (hp : parentOf t k = some p) :
     ∀ fuel i, k ∈ pathFrom t x fuel i → k = i ∨ (p ∈ pathFrom t x fuel i ∧ descend t x 1 p = k) := by
   intro fuel
@@ -169,8 +169,8 @@ theorem path_parent {t : Tree} {X : Rows} {m : Nat} {eps : Rat}
     · simp at hk; exact Or.inl hk
 
 /-- (←) with enough fuel the path continues from an internal node to the child the step selects -/
-theorem path_child {t : Tree} {X : Rows} {m : Nat} {eps : Rat}
-    (hlen : t.left.length = t.n) (hwf : ∀ i < t.n, wfNode t X m eps i = true) (x : List Rat)
+theorem path_child {t : Tree} {X : Rows} {m : Nat} {nxt : Rat → Rat}
+    (hlen : t.left.length = t.n) (hwf : ∀ i < t.n, wfNode t X m nxt i = true) (x : List Rat)
     {p : Nat} {l r f : Int} {thr : Rat}
     (g1 : t.left[p]? = some l) (g2 : t.right[p]? = some r) (g3 : t.feature[p]? = some f)
     (g4 : t.threshold[p]? = some thr) (gl : ¬ l = -1) :
@@ -230,12 +230,12 @@ def parF (t : Tree) (k : Nat) : Nat := (parentOf t k).getD 0
 
 def dparF (t : Tree) (k : Nat) : Option Nat := if k = 0 then none else parentOf t k
 
-def premF (t : Tree) (eps : Rat) (k : Nat) : Prem :=
+def premF (t : Tree) (nxt : Rat → Rat) (k : Nat) : Prem :=
   if k = 0 then [] else
   match parentOf t k with
   | some p =>
     match t.threshold[p]?, t.feature[p]? with
-    | some thr, some f => [(f, directDescr t eps k thr)]
+    | some thr, some f => [(f, directDescr t nxt k thr)]
     | _, _ => []
   | none => []
 
@@ -247,10 +247,10 @@ theorem mem_EF {t : Tree} {X : Rows} {k g : Nat} :
     g ∈ EF t X k ↔ g < nObjects X ∧ k ∈ pathFrom t (X.getD g []) t.n 0 := by
   simp [EF]
 
-theorem wf_parts2 {t : Tree} {X : Rows} {m : Nat} {eps : Rat} (h : wellFormed t X m eps = true) :
+theorem wf_parts2 {t : Tree} {X : Rows} {m : Nat} {nxt : Rat → Rat} (h : wellFormed t X m nxt = true) :
     0 < t.n ∧ t.right.length = t.n := by
   simp only [wellFormed, Bool.and_eq_true, decide_eq_true_eq] at h
-  obtain ⟨⟨⟨⟨⟨⟨⟨⟨h1, _⟩, h3⟩, _⟩, _⟩, _⟩, _⟩, _⟩, _⟩ := h
+  obtain ⟨⟨⟨⟨⟨⟨⟨h1, _⟩, h3⟩, _⟩, _⟩, _⟩, _⟩, _⟩ := h
   exact ⟨h1, h3⟩
 
 theorem EF_zero (t : Tree) (X : Rows) : EF t X 0 = List.range (nObjects X) := by
@@ -260,10 +260,10 @@ theorem EF_zero (t : Tree) (X : Rows) : EF t X 0 = List.range (nObjects X) := by
   obtain ⟨tl, htl⟩ := pathFrom_cons t (X.getD g []) t.n 0
   rw [htl]; simp
 
-theorem EF_step {t : Tree} {X : Rows} {m : Nat} {eps : Rat} (hwf : wellFormed t X m eps = true)
+theorem EF_step {t : Tree} {X : Rows} {m : Nat} {nxt : Rat → Rat} (hwf : wellFormed t X m nxt = true)
     {k p : Nat} (hp : parentOf t k = some p) :
     EF t X k = (EF t X p).filter fun g => descend t (X.getD g []) 1 p == k := by
-  obtain ⟨hlen, _, hnode⟩ := wf_parts hwf
+  obtain ⟨hlen, hnode⟩ := wf_parts hwf
   obtain ⟨_, hrlen⟩ := wf_parts2 hwf
   obtain ⟨l, r, f, thr, g1, g2, g3, g4, gl, hpn, hpk, _⟩ := node_of_parent hlen hrlen hnode hp
   unfold EF
@@ -282,22 +282,22 @@ theorem EF_step {t : Tree} {X : Rows} {m : Nat} {eps : Rat} (hwf : wellFormed t 
     rw [e2] at this
     exact this
 
-theorem EF_sub {t : Tree} {X : Rows} {m : Nat} {eps : Rat} (hwf : wellFormed t X m eps = true)
+theorem EF_sub {t : Tree} {X : Rows} {m : Nat} {nxt : Rat → Rat} (hwf : wellFormed t X m nxt = true)
     {k p : Nat} (hp : parentOf t k = some p) : ∀ g ∈ EF t X k, g ∈ EF t X p := by
   intro g hg
   rw [EF_step hwf hp] at hg
   exact (List.mem_filter.mp hg).1
 
 /-- tracing one generator: the extension of node `k`'s direct premise inside its parent's extent is `k`'s extent -/
-theorem EF_trace {t : Tree} {X : Rows} {m : Nat} {eps : Rat} (hwf : wellFormed t X m eps = true)
+theorem EF_trace {t : Tree} {X : Rows} {m : Nat} {nxt : Rat → Rat} (hwf : wellFormed t X m nxt = true)
     {k p : Nat} (hk0 : 0 < k) (hp : parentOf t k = some p) :
-    extensionI X m (premF t eps k) (some (EF t X p)) = .ok (EF t X k) := by
-  obtain ⟨hlen, _, hnode⟩ := wf_parts hwf
+    extensionI X m (premF t nxt k) (some (EF t X p)) = .ok (EF t X k) := by
+  obtain ⟨hlen, hnode⟩ := wf_parts hwf
   obtain ⟨_, hrlen⟩ := wf_parts2 hwf
   obtain ⟨l, r, f, thr, g1, g2, g3, g4, gl, hpn, hpk, hkc⟩ := node_of_parent hlen hrlen hnode hp
   have hbase : ∀ g ∈ EF t X p, g < nObjects X := fun g hg => (mem_EF.mp hg).1
-  obtain ⟨hL, hR⟩ := trace_step t X m eps hwf p l r f thr g1 g2 g3 g4 gl (EF t X p) hbase
-  have hprem : premF t eps k = [(f, directDescr t eps k thr)] := by
+  obtain ⟨hL, hR⟩ := trace_step t X m nxt hwf p l r f thr g1 g2 g3 g4 gl (EF t X p) hbase
+  have hprem : premF t nxt k = [(f, directDescr t nxt k thr)] := by
     have : k ≠ 0 := by omega
     simp [premF, this, hp, g3, g4]
   rw [hprem, EF_step hwf hp]
@@ -308,10 +308,10 @@ theorem EF_trace {t : Tree} {X : Rows} {m : Nat} {eps : Rat} (hwf : wellFormed t
 
 /-! ### inversion of `parse` -/
 
-theorem parseLoop_inv (t : Tree) (m : Nat) (eps : Rat) :
-    ∀ (ks : List Nat) (dps ps dps' ps' : List Prem), parseLoop t m eps ks dps ps = .ok (dps', ps') →
+theorem parseLoop_inv (t : Tree) (m : Nat) (nxt : Rat → Rat) :
+    ∀ (ks : List Nat) (dps ps dps' ps' : List Prem), parseLoop t m nxt ks dps ps = .ok (dps', ps') →
       (∀ k ∈ ks, k ≠ 0) →
-      dps' = dps ++ ks.map (premF t eps) ∧ ps'.length = ps.length + ks.length ∧ ∃ tl, ps' = ps ++ tl := by
+      dps' = dps ++ ks.map (premF t nxt) ∧ ps'.length = ps.length + ks.length ∧ ∃ tl, ps' = ps ++ tl := by
   intro ks
   induction ks with
   | nil =>
@@ -332,7 +332,7 @@ theorem parseLoop_inv (t : Tree) (m : Nat) (eps : Rat) :
         · cases h
         · rename_i premise _
           obtain ⟨e1, e2, tl, e3⟩ := ih _ _ _ _ h (fun k' hk' => hk k' (List.mem_cons_of_mem _ hk'))
-          have hprem : premF t eps k = [(f, directDescr t eps k thr)] := by
+          have hprem : premF t nxt k = [(f, directDescr t nxt k thr)] := by
             simp [premF, hk0, hp, h1, h2]
           refine ⟨?_, ?_, ?_⟩
           · rw [e1, List.map_cons, hprem]; simp
@@ -359,13 +359,13 @@ theorem range_eq_cons_nodes1 (t : Tree) (hn : 0 < t.n) : List.range t.n = 0 :: n
   simp
 
 /-- what a successful `parse` returns, as maps over the node indexes -/
-theorem parse_inv (t : Tree) (m : Nat) (eps : Rat) (r : Rules) (hn : 0 < t.n) (h : parse t m eps = .ok r) :
+theorem parse_inv (t : Tree) (m : Nat) (nxt : Rat → Rat) (r : Rules) (hn : 0 < t.n) (h : parse t m nxt = .ok r) :
     r.dparents = (List.range t.n).map (dparF t) ∧
-    r.dprems = (List.range t.n).map (premF t eps) ∧
+    r.dprems = (List.range t.n).map (premF t nxt) ∧
     r.dtargets = (List.range t.n).map (delta t) ∧
     r.premises.length = t.n ∧ r.premises[0]? = some [] ∧
     (∀ k, 0 < k → k < t.n → (parentOf t k).isSome) := by
-  obtain ⟨hdt, hdp⟩ := parse_dtargets_eq t m eps r hn h
+  obtain ⟨hdt, hdp⟩ := parse_dtargets_eq t m nxt r hn h
   unfold parse at h
   split at h
   · cases h
@@ -378,7 +378,7 @@ theorem parse_inv (t : Tree) (m : Nat) (eps : Rat) (r : Rules) (hn : 0 < t.n) (h
       · rename_i ds hds
         cases h
         obtain ⟨_, hsome⟩ := parentsList_ok t _ _ hpl
-        obtain ⟨e1, e2, tl, e3⟩ := parseLoop_inv t m eps _ _ _ _ _ hloop (nodes1_ne_zero t)
+        obtain ⟨e1, e2, tl, e3⟩ := parseLoop_inv t m nxt _ _ _ _ _ hloop (nodes1_ne_zero t)
         have hrange := range_eq_cons_nodes1 t hn
         refine ⟨?_, ?_, hdt, ?_, ?_, ?_⟩
         · simp only at hdp
@@ -505,10 +505,10 @@ theorem tops_zero {cs : List Concept} {nObj top : Nat} (c0 : Concept) (cs' : Lis
 
 /-! ### generator dictionary, decisions, and the inversion of `fromDecisionTree` -/
 
-def genF (t : Tree) (eps : Rat) (k : Nat) : GenEntry :=
+def genF (t : Tree) (nxt : Rat → Rat) (k : Nat) : GenEntry :=
   match dparF t k with
-  | some p => .cond [(p, [premF t eps k])]
-  | none => .flat (premF t eps k)
+  | some p => .cond [(p, [premF t nxt k])]
+  | none => .flat (premF t nxt k)
 
 theorem mkGens_map (a : Nat → Option Nat) (b : Nat → Prem) : ∀ ks : List Nat,
     mkGens (ks.map a) (ks.map b) = ks.map fun k =>
@@ -549,16 +549,16 @@ theorem alGet_map_key (key : Nat → DKey) (v : Nat → Rat) (hinj : ∀ a b, ke
       · exact absurd (e ▸ rfl) hk
       · exact ih k0 e
 
-theorem fromDecisionTree_inv (t : Tree) (X : Rows) (m : Nat) (eps : Rat) (L : DLat) (hn : 0 < t.n)
-    (h : fromDecisionTree t X m eps = .ok L) :
-    ∃ r, parse t m eps = .ok r ∧ L.lat.gens = mkGens r.dparents r.dprems ∧
+theorem fromDecisionTree_inv (t : Tree) (X : Rows) (m : Nat) (nxt : Rat → Rat) (L : DLat) (hn : 0 < t.n)
+    (h : fromDecisionTree t X m nxt = .ok L) :
+    ∃ r, parse t m nxt = .ok r ∧ L.lat.gens = mkGens r.dparents r.dprems ∧
       L.decisions = mkDecisions 0 r.dparents r.dprems r.dtargets ∧ L.lat.top = 0 ∧
       t.n ≤ L.lat.concepts.length := by
   unfold fromDecisionTree at h
   split at h
   · cases h
   · rename_i r hr
-    obtain ⟨_, _, _, hplen, hp0, _⟩ := parse_inv t m eps r hn hr
+    obtain ⟨_, _, _, hplen, hp0, _⟩ := parse_inv t m nxt r hn hr
     split at h
     · cases h
     · rename_i concepts hcs
@@ -619,8 +619,8 @@ theorem fromDecisionTree_inv (t : Tree) (X : Rows) (m : Nat) (eps : Rat) (L : DL
 
 /-- if the traced records carry the node deltas as decisions and are, per row, the nodes of the row's path,
     `predict` returns the tree's prediction (sum of deltas = leaf value) -/
-theorem predict_of_trace (t : Tree) (X : Rows) (m : Nat) (eps : Rat)
-    (hwf : wellFormed t X m eps = true) (L : DLat) (order : List GenRec → List GenRec)
+theorem predict_of_trace (t : Tree) (X : Rows) (m : Nat) (nxt : Rat → Rat)
+    (hwf : wellFormed t X m nxt = true) (L : DLat) (order : List GenRec → List GenRec)
     (recs : List GenRec) (htrace : traceContext L.lat X m order = .ok recs)
     (hkeys : traceKeysOK t L.decisions recs = true) (hpath : tracePathOK t X recs = true) :
     ∃ preds, predict L X m order = .ok preds ∧ preds.length = nObjects X ∧
@@ -637,7 +637,7 @@ theorem predict_of_trace (t : Tree) (X : Rows) (m : Nat) (eps : Rat)
     have hp := List.all_eq_true.mp hpath g (List.mem_range.mpr hg)
     have hperm := of_decide_eq_true hp
     rw [h3 g (by simpa using hg)]
-    rw [sumR_perm (hperm.map (delta t)), telescope t X m eps (wf_parts hwf).1 (wf_parts hwf).2.2]
+    rw [sumR_perm (hperm.map (delta t)), telescope t X m nxt (wf_parts hwf).1 (wf_parts hwf).2]
     simp [List.getD_eq_getElem?_getD, hg, Rat.zero_add]
 
 /-! ### assembly: the converted lattice meets the specification of the worklist theorem -/
@@ -645,16 +645,16 @@ theorem predict_of_trace (t : Tree) (X : Rows) (m : Nat) (eps : Rat)
 theorem parF_of_some {t : Tree} {k p : Nat} (h : parentOf t k = some p) : parF t k = p := by
   simp [parF, h]
 
-theorem tspec_of_conv (t : Tree) (X : Rows) (m : Nat) (eps : Rat) (L : DLat)
-    (hwf : wellFormed t X m eps = true) (hconv : fromDecisionTree t X m eps = .ok L) :
-    TSpec L.lat X m t.n (parF t) (premF t eps) (EF t X) ∧
-    L.decisions = (List.range t.n).map (fun k => ((⟨dparF t k, k, premF t eps k⟩ : DKey), delta t k)) ∧
+theorem tspec_of_conv (t : Tree) (X : Rows) (m : Nat) (nxt : Rat → Rat) (L : DLat)
+    (hwf : wellFormed t X m nxt = true) (hconv : fromDecisionTree t X m nxt = .ok L) :
+    TSpec L.lat X m t.n (parF t) (premF t nxt) (EF t X) ∧
+    L.decisions = (List.range t.n).map (fun k => ((⟨dparF t k, k, premF t nxt k⟩ : DKey), delta t k)) ∧
     (∀ k, 0 < k → k < t.n → dparF t k = some (parF t k)) := by
-  obtain ⟨hlen, _, hnode⟩ := wf_parts hwf
+  obtain ⟨hlen, hnode⟩ := wf_parts hwf
   obtain ⟨hn, hrlen⟩ := wf_parts2 hwf
-  obtain ⟨r, hr, hgens, hdec, htop, hclen⟩ := fromDecisionTree_inv t X m eps L hn hconv
-  obtain ⟨hdp, hpr, hdt, _, _, hsome⟩ := parse_inv t m eps r hn hr
-  have hgens' : L.lat.gens = (List.range t.n).map (genF t eps) := by
+  obtain ⟨r, hr, hgens, hdec, htop, hclen⟩ := fromDecisionTree_inv t X m nxt L hn hconv
+  obtain ⟨hdp, hpr, hdt, _, _, hsome⟩ := parse_inv t m nxt r hn hr
+  have hgens' : L.lat.gens = (List.range t.n).map (genF t nxt) := by
     rw [hgens, hdp, hpr, mkGens_map]; rfl
   have hpar : ∀ k, 0 < k → k < t.n → parentOf t k = some (parF t k) := by
     intro k hk0 hkn
@@ -684,13 +684,13 @@ theorem tspec_of_conv (t : Tree) (X : Rows) (m : Nat) (eps : Rat) (L : DLat)
 
 /-- hypothesis (b) of the partial theorem, discharged: for every row the traced records that contain it are,
     in some order, the nodes of its root-to-leaf path -/
-theorem tracePathOK_of_conv (t : Tree) (X : Rows) (m : Nat) (eps : Rat) (L : DLat)
-    (hwf : wellFormed t X m eps = true) (hconv : fromDecisionTree t X m eps = .ok L)
+theorem tracePathOK_of_conv (t : Tree) (X : Rows) (m : Nat) (nxt : Rat → Rat) (L : DLat)
+    (hwf : wellFormed t X m nxt = true) (hconv : fromDecisionTree t X m nxt = .ok L)
     (order : List GenRec → List GenRec) (horder : ∀ l, (order l).Perm l) :
     ∃ recs, traceContext L.lat X m order = .ok recs ∧ tracePathOK t X recs = true ∧
       traceKeysOK t L.decisions recs = true := by
-  obtain ⟨hspec, hdec, hdpar⟩ := tspec_of_conv t X m eps L hwf hconv
-  obtain ⟨hlen, _, hnode⟩ := wf_parts hwf
+  obtain ⟨hspec, hdec, hdpar⟩ := tspec_of_conv t X m nxt L hwf hconv
+  obtain ⟨hlen, hnode⟩ := wf_parts hwf
   obtain ⟨hn, _⟩ := wf_parts2 hwf
   obtain ⟨recs, hrecs, hform, hrows⟩ := traceContext_rows hspec order horder
   refine ⟨recs, hrecs, ?_, ?_⟩
@@ -711,13 +711,13 @@ theorem tracePathOK_of_conv (t : Tree) (X : Rows) (m : Nat) (eps : Rat) (L : DLa
     rw [List.all_eq_true]
     intro r hr
     obtain ⟨k, hkn, e⟩ := hform r hr
-    have hkey : (⟨r.sup, r.concept, r.gen⟩ : DKey) = ⟨dparF t k, k, premF t eps k⟩ := by
+    have hkey : (⟨r.sup, r.concept, r.gen⟩ : DKey) = ⟨dparF t k, k, premF t nxt k⟩ := by
       rw [e]
       by_cases hk0 : k = 0
       · subst hk0; simp [recOf, dparF, premF]
       · simp [recOf, hk0, hdpar k (by omega) hkn]
     rw [hkey, hdec, e, recOf_concept]
-    rw [alGet_map_key (fun k => (⟨dparF t k, k, premF t eps k⟩ : DKey)) (delta t)
+    rw [alGet_map_key (fun k => (⟨dparF t k, k, premF t nxt k⟩ : DKey)) (delta t)
       (by intro a b hab; exact (DKey.mk.inj hab).2.1) _ k (List.mem_range.mpr hkn)]
     simp
 
